@@ -40,6 +40,9 @@ def builder_signature(F, b):
 
         def role(t):
             def f(n):
+                # the number of entries, asked of the heap or of the vector it was built from
+                if n and n[0] == 'call' and str(n[1]).endswith('BinaryHeap::<T, A>::len') and len(n[2]) == 1:
+                    return sym.mk_len(n[2][0])
                 # the item of a pop that is known to have yielded one: a pattern payload, `unwrap()` or `expect(..)` alike
                 if n and n[0] == 'call' and str(n[1]).endswith(('Option::<T>::expect', 'Option::<T>::unwrap', 'Option::<T>::unwrap_unchecked')) and n[2] \
                         and isinstance(n[2][0], tuple) and n[2][0] and n[2][0][0] == 'call' and str(n[2][0][1]).endswith('BinaryHeap::<T, A>::pop'):
@@ -471,6 +474,9 @@ def check_builder_size_arithmetic(ctx, F):
                         for t, v, _ in before:
                             t = rules.inline_pure(F, t)
                             if isinstance(t, tuple) and t and t[0] == 'call' and str(t[1]).endswith('::is_empty') and not v:
+                                nonempty = True
+                            # `match list.len() { 0 => .., n => .. }`: the length itself is switched on
+                            if is_len(t) and ((isinstance(v, tuple) and v and v[0] == 'not' and 0 in v[1]) or (isinstance(v, int) and not isinstance(v, bool) and v >= 1)):
                                 nonempty = True
                             if isinstance(t, tuple) and t and t[0] == 'bin' and sym.contains(t, is_len):
                                 a, c = t[2], t[3]
